@@ -334,9 +334,7 @@ def _prologue_end_abs(text, tree):
         ln, co = n.lineno, n.col_offset
         cc = gen_source.char_col(lines[ln - 1], co)
         if getattr(n, "decorator_list", None):
-            d = n.decorator_list[0]
-            ln = d.lineno
-            cc = lines[ln - 1].rfind("@", 0, gen_source.char_col(lines[ln - 1], d.col_offset))
+            ln, cc = gen_source.decorator_at(lines, n.decorator_list[0])
         return min(offs[ln - 1] + cc, len(text))
     return len(text)
 
